@@ -304,8 +304,12 @@ pub fn run(cfg: &Cfg, out: &mut Out) {
                      TrimStartMatches(" "), TrimEndMatches(" "), TrimMatches("0"), StripPrefix("0"), Split(" "), RSplit("0")]);
         let probes: &[Op] = if cfg.thorough { &[Skip(1), SkipBack(1), ParseU8, StripPrefix("a"), TrimStart, FindSkip("-"), ParseI32] } else { &[Skip(1), SkipBack(1), ParseU8, StripPrefix("a")] };
         let ns: &[usize] = if cfg.thorough { &[15, 16, 17, 31, 32, 33, 63, 64, 65, 96, 127, 128, 129, 200] } else { &[31, 32, 33, 64, 65] };
+        let mut ns: Vec<usize> = ns.to_vec();
+        if huge() {
+            ns.extend(HUGE_SIZES);
+        }
         for c in [' ', '0', 'a', '-', 'é', '\t'] {
-            for &n in ns {
+            for &n in &ns {
                 let run_: String = std::iter::repeat(c).take(n).collect();
                 for tail in ["", "a", "256", "x y", "-b", "99999999999999999999"] {
                     for s in [format!("{}{}", run_, tail), format!("{}{}", tail, run_)] {
